@@ -390,6 +390,8 @@ func ruleCommit(r *core.Report, h *hubSlots, ruleID string) {
 // ruleDoneAfterCallback: after the rendezvous receive in TellHub.Receive / AskHub.ServeAsk every
 // path calls the callback once and signals completion only after it returned (shared by C13, C14
 // and C01: the deliverer's buffer is lent to the callback until the completion signal).
+// The callback-and-signal sequence may live in the function itself or in one helper of the module
+// that is handed the callback (validated with the same obligations).
 func ruleDoneAfterCallback(r *core.Report, h *hubSlots, ruleID string) {
 	p := r.P
 	for _, d := range []struct {
@@ -398,11 +400,7 @@ func ruleDoneAfterCallback(r *core.Report, h *hubSlots, ruleID string) {
 		nField    *types.Var
 	}{{"TellHub.Receive", h.tellDelivers, h.drDone, nil}, {"AskHub.ServeAsk", h.askReqs, h.srDone, p.Field("s/swarmutil", "serveReq", "n")}} {
 		fn := h.fns[d.name]
-		isFn := func(in ssa.Instruction) bool {
-			ci, ok := in.(*ssa.Call)
-			return ok && core.IsParamFuncCall(ci.Common())
-		}
-		isCloseDone := func(in ssa.Instruction) bool {
+		directClose := func(in ssa.Instruction) bool {
 			ci, ok := in.(ssa.CallInstruction)
 			if !ok || !core.IsBuiltin(ci.Common(), "close") {
 				return false
@@ -410,6 +408,151 @@ func ruleDoneAfterCallback(r *core.Report, h *hubSlots, ruleID string) {
 			cr := core.ClassifyChan(ci.Common().Args[0])
 			return cr.Kind == "field" && core.SameField(cr.Field, d.done)
 		}
+		isNStore := func(in ssa.Instruction) bool {
+			st, ok := in.(*ssa.Store)
+			if !ok {
+				return false
+			}
+			f, _ := core.FieldOfAddr(st.Addr)
+			return d.nField != nil && core.SameField(f, d.nField)
+		}
+		// verdicts on the callback/close sequence of one function, starting at `first`
+		// (nil = entry), for given predicates
+		type verdict struct{ always, once, completion, resultFirst bool }
+		analyse := func(f *ssa.Function, first ssa.Instruction, cut core.CutFunc, fnLike, closeLike, selfContained func(ssa.Instruction) bool) verdict {
+			var v verdict
+			reachTo := func(stop func(ssa.Instruction) bool) map[ssa.Instruction]bool {
+				if first == nil {
+					return core.Reach(f, nil, cut, stop)
+				}
+				return core.ReachAt(f, first, cut, stop)
+			}
+			reach := reachTo(fnLike)
+			v.always = true
+			for _, ret := range core.Returns(f) {
+				if reach[ret] {
+					v.always = false
+				}
+			}
+			var fnCalls []ssa.Instruction
+			for in := range reach {
+				if fnLike(in) {
+					fnCalls = append(fnCalls, in)
+				}
+			}
+			v.once = len(fnCalls) > 0
+			for _, fc := range fnCalls {
+				for in := range core.Reach(f, fc, nil, nil) {
+					if fnLike(in) {
+						v.once = false
+					}
+				}
+			}
+			early, signalled, deferred := false, false, false
+			for in := range reach {
+				if fnLike(in) {
+					continue
+				}
+				if directClose(in) {
+					if _, isDefer := in.(*ssa.Defer); isDefer {
+						signalled, deferred = true, true
+					} else {
+						early = true
+					}
+				}
+			}
+			allSignal := true
+			for _, fc := range fnCalls {
+				if selfContained(fc) {
+					signalled = true
+					continue
+				}
+				for in := range core.Reach(f, fc, nil, nil) {
+					if closeLike(in) {
+						signalled = true
+					}
+				}
+				if !deferred && !mustPassFrom(f, fc, closeLike) {
+					allSignal = false
+				}
+			}
+			if deferred {
+				// the defer must be registered on every path that reaches the callback
+				pre := reachTo(func(in ssa.Instruction) bool {
+					_, isDefer := in.(*ssa.Defer)
+					return isDefer && directClose(in)
+				})
+				for _, fc := range fnCalls {
+					if pre[fc] && !selfContained(fc) {
+						allSignal = false
+					}
+				}
+			}
+			v.completion = !early && signalled && allSignal
+			v.resultFirst = true
+			if d.nField != nil {
+				for _, fc := range fnCalls {
+					if selfContained(fc) {
+						continue
+					}
+					for in := range core.Reach(f, fc, nil, isNStore) {
+						if closeLike(in) {
+							v.resultFirst = false
+						}
+					}
+				}
+			}
+			return v
+		}
+		never := func(ssa.Instruction) bool { return false }
+		// a helper of the module that receives the callback as an argument and runs the whole
+		// callback-then-signal sequence itself
+		helperMemo := map[*ssa.Function]map[int]bool{}
+		helperOK := func(in ssa.Instruction) bool {
+			ci, ok := in.(*ssa.Call)
+			if !ok {
+				return false
+			}
+			g := core.StaticCallee(ci.Common())
+			if g == nil || !p.InModule(g) || g.Blocks == nil {
+				return false
+			}
+			for j, a := range ci.Call.Args {
+				prm, isP := core.Through(a).(*ssa.Parameter)
+				if !isP {
+					continue
+				}
+				if _, isSig := prm.Type().Underlying().(*types.Signature); !isSig || j >= len(g.Params) {
+					continue
+				}
+				if m, seen := helperMemo[g]; seen {
+					if res, s2 := m[j]; s2 {
+						return res
+					}
+				} else {
+					helperMemo[g] = map[int]bool{}
+				}
+				gp := g.Params[j]
+				gFn := func(i2 ssa.Instruction) bool {
+					c2, ok := i2.(*ssa.Call)
+					return ok && !c2.Call.IsInvoke() && core.Through(c2.Call.Value) == ssa.Value(gp)
+				}
+				v := analyse(g, nil, nil, gFn, directClose, never)
+				res := v.always && v.once && v.completion && v.resultFirst
+				helperMemo[g][j] = res
+				if res {
+					r.Analysed(g)
+				}
+				return res
+			}
+			return false
+		}
+		directFn := func(in ssa.Instruction) bool {
+			ci, ok := in.(*ssa.Call)
+			return ok && core.IsParamFuncCall(ci.Common())
+		}
+		fnLike := func(in ssa.Instruction) bool { return directFn(in) || helperOK(in) }
+		closeLike := func(in ssa.Instruction) bool { return directClose(in) || helperOK(in) }
 		n := 0
 		for _, sel := range core.AllSelects(fn) {
 			for i, st := range sel.States {
@@ -425,6 +568,10 @@ func ruleDoneAfterCallback(r *core.Report, h *hubSlots, ruleID string) {
 					continue
 				}
 				first := blk.Instrs[0]
+				pos := p.Pos(first.Pos())
+				if pos == "-" || pos == "" {
+					pos = p.Pos(sel.Pos())
+				}
 				// the comma-ok false edge means no request was received: excluded
 				cutNotOK := func(b *ssa.BasicBlock, si int) bool {
 					iff, ok := b.Instrs[len(b.Instrs)-1].(*ssa.If)
@@ -434,99 +581,12 @@ func ruleDoneAfterCallback(r *core.Report, h *hubSlots, ruleID string) {
 					e, ok := iff.Cond.(*ssa.Extract)
 					return ok && e.Tuple == sel && e.Index == 1 && si == 1
 				}
-				// (1) every path calls fn
-				reach := core.ReachAt(fn, first, cutNotOK, isFn)
-				callsAlways := true
-				for _, ret := range core.Returns(fn) {
-					if reach[ret] {
-						callsAlways = false
-					}
-				}
-				r.Check(callsAlways, ruleID, c+" callback", p.Pos(first.Pos()), "every path after receiving a request invokes the callback", "a received request can be dropped without invoking any callback (message lost, deliverer blocked forever)")
-				// (2) fn is not called in a loop, and only once
-				var fnCalls []ssa.Instruction
-				for in := range reach {
-					if isFn(in) {
-						fnCalls = append(fnCalls, in)
-					}
-				}
-				once := true
-				for _, fc := range fnCalls {
-					after := core.Reach(fn, fc, nil, nil)
-					for in := range after {
-						if isFn(in) {
-							once = false
-						}
-					}
-				}
-				r.Check(once && len(fnCalls) > 0, ruleID, c+" once", p.Pos(first.Pos()), "the request is handed to exactly one callback invocation", "the same request can reach the callback more than once")
-				// (3) completion after the callback: a plain close(done) must not be reachable
-				// before fn; a deferred close runs at function exit, after fn.
-				beforeFn := core.ReachAt(fn, first, cutNotOK, isFn)
-				early := false
-				signalled := false
-				for in := range beforeFn {
-					if isCloseDone(in) {
-						if _, isDefer := in.(*ssa.Defer); isDefer {
-							signalled = true
-						} else {
-							early = true
-						}
-					}
-				}
-				for _, fc := range fnCalls {
-					for in := range core.Reach(fn, fc, nil, nil) {
-						if isCloseDone(in) {
-							signalled = true
-						}
-					}
-				}
-				// every path after fn must signal (or a defer is already registered)
-				allSignal := true
-				deferred := false
-				for in := range beforeFn {
-					if _, isDefer := in.(*ssa.Defer); isDefer && isCloseDone(in) {
-						deferred = true
-					}
-				}
-				if !deferred {
-					for _, fc := range fnCalls {
-						if !mustPassFrom(fn, fc, isCloseDone) {
-							allSignal = false
-						}
-					}
-				} else {
-					// the defer must be registered on every path that reaches fn
-					pre := core.ReachAt(fn, first, cutNotOK, func(in ssa.Instruction) bool {
-						_, isDefer := in.(*ssa.Defer)
-						return isDefer && isCloseDone(in)
-					})
-					for _, fc := range fnCalls {
-						if pre[fc] {
-							allSignal = false
-						}
-					}
-				}
-				r.Check(!early && signalled && allSignal, ruleID, c+" completion", p.Pos(first.Pos()), "completion is signalled on every path, and only after the callback returned", "completion may be signalled before the callback has finished, or not at all: Deliver returns while the callback still uses the message, or never returns")
-				// (4) result stored before the signal
+				v := analyse(fn, first, cutNotOK, fnLike, closeLike, helperOK)
+				r.Check(v.always, ruleID, c+" callback", pos, "every path after receiving a request invokes the callback", "a received request can be dropped without invoking any callback (message lost, deliverer blocked forever)")
+				r.Check(v.once, ruleID, c+" once", pos, "the request is handed to exactly one callback invocation", "the same request can reach the callback more than once")
+				r.Check(v.completion, ruleID, c+" completion", pos, "completion is signalled on every path, and only after the callback returned", "completion may be signalled before the callback has finished, or not at all: Deliver returns while the callback still uses the message, or never returns")
 				if d.nField != nil {
-					okN := true
-					for _, fc := range fnCalls {
-						reachNoStore := core.Reach(fn, fc, nil, func(in ssa.Instruction) bool {
-							st, ok := in.(*ssa.Store)
-							if !ok {
-								return false
-							}
-							f, _ := core.FieldOfAddr(st.Addr)
-							return core.SameField(f, d.nField)
-						})
-						for in := range reachNoStore {
-							if isCloseDone(in) {
-								okN = false
-							}
-						}
-					}
-					r.Check(okN, ruleID, c+" result-before-signal", p.Pos(first.Pos()), "the handler's result is stored before completion is signalled", "completion can be signalled before the handler's result is stored: the asker reads a stale result")
+					r.Check(v.resultFirst, ruleID, c+" result-before-signal", pos, "the handler's result is stored before completion is signalled", "completion can be signalled before the handler's result is stored: the asker reads a stale result")
 				}
 			}
 		}
@@ -534,5 +594,4 @@ func ruleDoneAfterCallback(r *core.Report, h *hubSlots, ruleID string) {
 			r.Fail("%s: no receive case on the rendezvous channel found", d.name)
 		}
 	}
-
 }
